@@ -14,6 +14,12 @@ import SpVerif.Ops.Parser
 import SpVerif.Ops.Uslp
 import SpVerif.Ops.Verificator
 import SpVerif.Ops.Robust
+import SpVerif.Ops.Prefix
+import SpVerif.Ops.DirectiveFixed
+import SpVerif.Ops.DirectiveVar
+import SpVerif.Ops.FileData
+import SpVerif.Ops.MsgToUser
+import SpVerif.Ops.Factory
 /-!
 # Line-protocol driver: one JSON object per input line (`{"op": …, …}`), one JSON result per output line.
 `{"ok": …}` / `{"err": "<category>"}` are model results; `{"bad": "<msg>"}` is a protocol error.
@@ -37,6 +43,12 @@ def allOps : List (String × Handler) := []
   ++ Ops.Uslp.ops
   ++ Ops.Verificator.ops
   ++ Ops.Robust.ops
+  ++ Ops.Prefix.ops
+  ++ Ops.DirectiveFixed.ops
+  ++ Ops.DirectiveVar.ops
+  ++ Ops.FileData.ops
+  ++ Ops.MsgToUser.ops
+  ++ Ops.Factory.ops
 
 def table : Std.HashMap String Handler := Std.HashMap.ofList allOps
 
